@@ -6,6 +6,7 @@ import Driver.Addr
 import Driver.Acl
 import Driver.WsJson
 import Driver.HttpCodec
+import Driver.WsStore
 import Driver.UdpNet
 
 def main (args : List String) : IO UInt32 := do
@@ -18,6 +19,7 @@ def main (args : List String) : IO UInt32 := do
   | ["acl"] => AclDrv.main; return 0
   | ["wsjson"] => WsJsonDrv.main; return 0
   | ["httpcodec"] => HttpCodecDrv.main; return 0
+  | ["wsstore"] => WsStoreDrv.main; return 0
   | ["udpnet"] => UdpNetDrv.main; return 0
   | _ =>
     IO.eprintln "usage: driver <family>   (lines on stdin)"
